@@ -106,6 +106,14 @@ Proof. exact booked_le_pet_lemma. Qed.
 Theorem C08_season_aet_le_pet : season_stmt.
 Proof. exact season_stmt_lemma. Qed.
 
+(* the evaporative flux through the soil surface is at most the actual evaporation when the rain + irrigation amount
+   handed to Evatra is non-negative (EVA = ETA - REGEN, FLUSS0 = -EVA) *)
+Theorem C08_surface_flux : forall x : evatra_in (T:=R),
+  let o := evatra_struct x in
+  eo_eva o = eo_eta o - ei_regen x /\ eo_fluss0 o = - eo_eva o /\
+  (0 <= ei_regen x -> - eo_fluss0 o <= eo_eta o).
+Proof. exact surface_flux_lemma. Qed.
+
 (* the stress ratios: ETREL in [0,1] whenever it is assigned (crop branch; unchanged on bare soil);
    TRREL in [0,1] when TRAMAX > 0, unchanged when TRAMAX <= 0 in the crop branch, 1 on bare soil *)
 Theorem C08_ratios : forall x : evatra_in (T:=R), evatra_wf x ->
@@ -193,6 +201,7 @@ Print Assumptions C08_uptake_zone.
 Print Assumptions C08_uptake_avail.
 Print Assumptions C08_booked_le_pet.
 Print Assumptions C08_season_aet_le_pet.
+Print Assumptions C08_surface_flux.
 Print Assumptions C08_ratios.
 Print Assumptions C08_pet_in_range.
 Print Assumptions C08_et0_methods_nonneg.
